@@ -65,6 +65,8 @@ type diffEvent struct {
 	// bounding keys): a subtree that is common to both versions without sitting at the same place in them
 	EShift  int    `json:"eshift"`
 	LShift  int    `json:"lshift"`
+	CLoads  int    `json:"cloads"` // the same for StartDiff / NextEntry
+	CShift  int    `json:"cshift"`
 	LLoads  int    `json:"lloads"` // distinct names loaded by DiffLinks
 	Counted bool   `json:"counted"`
 	Stores  string `json:"stores"` // "one" | "two": the new version is opened on a mirror store holding the same nodes under another prefix
@@ -738,13 +740,20 @@ func diffCase(id int, seed int64, out *json.Encoder, big bool) {
 	eNames := loadedNames(sev)
 	ev.Counted = bothPersisted
 	ev.Msg = msg
+	// cursor interface (with load accounting too)
+	nm, o2 = reopenBoth()
+	beginAll()
+	ev.Cur, ev.CurRes, ev.CurTail, msg = r.cursorDiff(nm, o2)
+	csev := endAll()
+	_, ev.CLoads = distinctLoads(csev)
+	cNames := loadedNames(csev)
+	if msg != "" {
+		ev.Msg += " | cursor: " + msg
+	}
+	if big && ev.CurRes == "ok" && fmt.Sprint(ev.Cur) != fmt.Sprint(ev.Cb) {
+		ev.CurRes = "inexact" // (large pairs: compared here; the sequences themselves are not logged)
+	}
 	if !big {
-		// cursor interface
-		nm, o2 = reopenBoth()
-		ev.Cur, ev.CurRes, ev.CurTail, msg = r.cursorDiff(nm, o2)
-		if msg != "" {
-			ev.Msg += " | cursor: " + msg
-		}
 		// early stop and callback failure at a few positions
 		n := len(ev.Cb)
 		for _, at := range []int{1, n, 1 + rng.Intn(n+1)} {
@@ -758,8 +767,6 @@ func diffCase(id int, seed int64, out *json.Encoder, big bool) {
 			seq, res, _ = r.entryDiff(nm, o2, 0, at)
 			ev.Fails = append(ev.Fails, diffStop{At: at, Seq: seq, Res: res})
 		}
-	} else {
-		ev.Cur, ev.CurRes, ev.CurTail = ev.Cb, "ok", true
 	}
 	// ---- node diff (persisted pairs)
 	if bothPersisted {
@@ -799,7 +806,7 @@ func diffCase(id int, seed int64, out *json.Encoder, big bool) {
 			}
 			return n
 		}
-		ev.EShift, ev.LShift = shifted(eNames), shifted(lNames)
+		ev.EShift, ev.LShift, ev.CShift = shifted(eNames), shifted(lNames), shifted(cNames)
 		if oldS != nil {
 			ev.HO = int(oldS.root.Height)
 		}
